@@ -32,6 +32,9 @@ func createEndpointSliceHandlers(lbc *LoadBalancerController) cache.ResourceEven
 			}
 			nl.Debugf(lbc.Logger, "Removing EndpointSlice: %v", endpointSlice.Name)
 			lbc.AddSyncQueue(obj)
+			// syncEndpointSlices cannot tell which Service a deleted EndpointSlice belonged to (it is no longer in
+			// the store), so sync the Service: the resources that reference it drop the endpoints of the slice.
+			lbc.enqueueServiceOfEndpointSlice(endpointSlice)
 		}, UpdateFunc: func(old, cur interface{}) {
 			if !reflect.DeepEqual(old, cur) {
 				nl.Debugf(lbc.Logger, "EndpointSlice %v changed, syncing", cur.(*discovery_v1.EndpointSlice).Name)
@@ -39,6 +42,20 @@ func createEndpointSliceHandlers(lbc *LoadBalancerController) cache.ResourceEven
 			}
 		},
 	}
+}
+
+// enqueueServiceOfEndpointSlice adds the Service the EndpointSlice belongs to (if it still exists) to the sync queue.
+func (lbc *LoadBalancerController) enqueueServiceOfEndpointSlice(endpointSlice *discovery_v1.EndpointSlice) {
+	svcName := endpointSlice.Labels["kubernetes.io/service-name"]
+	nsi := lbc.getNamespacedInformer(endpointSlice.Namespace)
+	if svcName == "" || nsi == nil {
+		return
+	}
+	svc, exists, err := nsi.svcLister.GetByKey(endpointSlice.Namespace + "/" + svcName)
+	if err != nil || !exists {
+		return
+	}
+	lbc.AddSyncQueue(svc)
 }
 
 // addEndpointSliceHandler adds the handler for EndpointSlices to the controller
